@@ -36,6 +36,10 @@ pub fn panic_key(p: &PanicInfo) -> String {
     let loc = vcore::short_loc(&p.loc);
     if loc.contains("serialize/txt/zone_lex.rs") && p.msg.contains("i < 4095") {
         "panic:zone_lex:next_token-char-budget".to_string()
+    } else if loc.contains("rr/rdata/svcb.rs") && p.msg.starts_with("infallible") {
+        "panic:svcb:parse_alpn-expect-infallible".to_string()
+    } else if loc.contains("rr/rdata/svcb.rs") && (p.msg.contains("when slicing") || p.msg.contains("slice index")) {
+        "panic:svcb:from_tokens-quote-strip".to_string()
     } else {
         format!("panic:{loc}")
     }
@@ -95,7 +99,7 @@ fn main() {
     ctx.assume("vref::masterfile prints RFC 1035 §5.1 / RFC 2308 §4 syntax only; an omitted class before any stated class denotes IN");
     ctx.assume("expected RDATA values are built with hickory's constructors (not its text parser) from the same typed values the printer receives");
     ctx.assume("RRsets that RFC 2181 §5.2 forbids (mixed TTL/class, two SOAs, two CNAMEs) are run but their record comparison is not judged");
-    ctx.case_timeout_s.store(30, std::sync::atomic::Ordering::Relaxed);
+    ctx.case_timeout_s.store(60, std::sync::atomic::Ordering::Relaxed);
 
     // ---------------------------------------------------------------------------------- valid
     let singles = alphabet::singles();
@@ -121,16 +125,18 @@ fn main() {
         let n = (singles.len() * profs.len()) as u64;
         ctx.par_run(n, 1, |i, l| {
             let (ri, pi) = (i as usize / profs.len(), i as usize % profs.len());
-            let en = Enum { w: &w, alpha_name: "singles", alpha: &singles, profile: &profs[pi], stats: &stats };
+            let en = Enum { ctx: &ctx, w: &w, alpha_name: "singles", alpha: &singles, profile: &profs[pi], stats: &stats };
             en.run_tuple(&[ri], l);
         });
         let st = stats.into_inner().unwrap();
         ctx.set("valid_single_records", json!(singles.len()));
         ctx.set("valid_single_files", json!(st.legal));
+        eprintln!("[C20] singles: legal={} ok={} violating={} minimised={}", st.legal, st.ok, st.violating, st.minimised);
         // vacuity: every value of every layout dimension must have been printed and accepted
         for d in 0..NDIMS {
             for (v, name) in DIMS[d].1.iter().enumerate() {
-                if st.dimvals[d][v] == 0 {
+                // owner=inherit needs a previous record: exercised by the pair/triple files
+                if st.dimvals[d][v] == 0 && !(d == 2 && v == 3) {
                     ctx.machinery_failure(&format!("vacuous: layout choice {}={} never legal in single-record files", DIMS[d].0, name));
                 }
             }
@@ -145,22 +151,24 @@ fn main() {
         total.lock().unwrap().add(&st);
     }
 
+    eprintln!("[C20] singles done at {:.1}s", ctx.elapsed_s());
     // ordered pairs
     {
         let prof = Profile::pair(thorough);
         profiles.insert("pair".into(), prof.describe());
-        let (nenv, nshape) = if thorough { (6, 6) } else { (5, 4) };
+        let (nenv, nshape) = if thorough { (6, 6) } else { (4, 4) };
         let pick: Vec<usize> = (0..36).filter(|i| i / 6 < nenv && i % 6 < nshape).collect();
         let stats = Mutex::new(Stats::default());
         let n = (pick.len() * pick.len()) as u64;
         ctx.par_run(n, 1, |i, l| {
             let (a, b) = (pick[i as usize / pick.len()], pick[i as usize % pick.len()]);
-            let en = Enum { w: &w, alpha_name: "sub", alpha: &sub, profile: &prof, stats: &stats };
+            let en = Enum { ctx: &ctx, w: &w, alpha_name: "sub", alpha: &sub, profile: &prof, stats: &stats };
             en.run_tuple(&[a, b], l);
         });
         let st = stats.into_inner().unwrap();
         ctx.set("valid_pair_alphabet", json!(pick.len()));
         ctx.set("valid_pair_files", json!(st.legal));
+        eprintln!("[C20] pairs: legal={} ok={} violating={} minimised={} unjudged={}", st.legal, st.ok, st.violating, st.minimised, st.unjudged);
         ctx.set("valid_pair_files_unjudged_rrset_conflict", json!(st.unjudged));
         for (d, vals) in [(2usize, vec![3usize]), (3, vec![1, 2]), (4, vec![1])] {
             for v in vals {
@@ -172,6 +180,7 @@ fn main() {
         total.lock().unwrap().add(&st);
     }
 
+    eprintln!("[C20] pairs done at {:.1}s", ctx.elapsed_s());
     // ordered triples (thorough)
     if thorough {
         let prof = Profile::triple();
@@ -183,7 +192,7 @@ fn main() {
         let n = (k * k * k) as u64;
         ctx.par_run(n, 1, |i, l| {
             let i = i as usize;
-            let en = Enum { w: &w, alpha_name: "sub", alpha: &sub, profile: &prof, stats: &stats };
+            let en = Enum { ctx: &ctx, w: &w, alpha_name: "sub", alpha: &sub, profile: &prof, stats: &stats };
             en.run_tuple(&[pick[i / (k * k)], pick[i / k % k], pick[i % k]], l);
         });
         let st = stats.into_inner().unwrap();
@@ -214,12 +223,18 @@ fn main() {
         }
     });
 
+    eprintln!("[C20] valid direction done at {:.1}s", ctx.elapsed_s());
+    // observations outside the statement
+    let obs = ctx.with_local(|l| malformed::observations(&w, l));
+    ctx.set("observations_not_judged", obs);
+
     // ------------------------------------------------------------------------------ malformed
     let max_len = if thorough { 6 } else { 5 };
     let shorts = malformed::short_strings(&ctx, &w, max_len);
     ctx.set("short_strings", json!(shorts));
     ctx.set("short_string_max_len", json!(max_len));
 
+    eprintln!("[C20] short strings done at {:.1}s", ctx.elapsed_s());
     let dir = malformed::scratch_dir();
     let _ = std::fs::remove_dir_all(&dir);
     if let Err(e) = std::fs::create_dir_all(&dir) {
@@ -251,6 +266,7 @@ fn main() {
     ctx.set("single_edits", json!(e1));
     ctx.set("double_edits", json!(e2));
 
+    eprintln!("[C20] edits done at {:.1}s", ctx.elapsed_s());
     let mut points = malformed::growth(&ctx, &w, thorough);
     points.extend(malformed::includes(&ctx, &w, &dir));
     let _ = std::fs::remove_dir_all(&dir);
